@@ -57,7 +57,12 @@ def build(case):
     # are those of the cube's elements, one per element of the data
     frame = {0: "larger", 1: "smaller"}.get(case["wseed"] % 12, True)
     wcs = W.make_wcs(rng, shape, case["fam"], frame)
-    cube = NDCube(C.payload(shape, 0), wcs=wcs)
+    cube = None
+    if case["wseed"] % 7 == 3:
+        # (one cube in seven is reached by slicing a larger one by ranges: see common.via_slicing)
+        cube = C.via_slicing(C.payload(tuple(shape), 0), wcs, case["wseed"])
+    if cube is None:
+        cube = NDCube(C.payload(shape, 0), wcs=wcs)
     for k, ec in enumerate(case["ecs"]):
         n = shape[ec["axis"]]
         v = np.arange(n, dtype=float) ** 2 + 10 * k
